@@ -49,6 +49,7 @@ func init() {
 			"net/http: a handler that returns after http.Error(…, 401) has no further effect",
 			"bus reachability is computed over static calls and interface implementations inside package api (quick tier); func-valued fields are treated as bus operations",
 			"non-atom conditions are treated as nondeterministic (both edges explored)",
+			"same-package helpers, predicates, closures and methods are interpreted inline (depth ≤ 4, no recursion); a fact that is missing on a path through module code that was not interpreted, or after a test that was not understood, ends undecided, never as a violation",
 		},
 		Run: runC09,
 	})
@@ -75,12 +76,20 @@ func runC09(c *kit.Ctx) {
 }
 
 // ---------------------------------------------------------------------------
-// Flow helper: kit.Std plus (i) role tags on variables that hold the result
-// of an anchor call ("bv:<var>" = role; kit.Std clears the tag on any other
-// assignment), (ii) a state-aware atomizer installed as CondEval.Leaf, so
-// that role-tagged error / bool / slice variables become rule atoms wherever
-// they are tested (kit.Std itself only refines error variables it can track;
-// handlers assign `err` inside closures).
+// Flow helper: kit.Std plus
+//  (i) role tags on variables that hold the result of an anchor call
+//      ("ro:<var>" = role, cleared on any other assignment to the variable);
+//  (ii) a state-aware atomizer installed as CondEval.Leaf, so that role-tagged
+//      error / bool / slice variables become rule atoms wherever they are
+//      tested (facts are recorded under "a:<id>");
+//  (iii) interprocedural evaluation (kit.Std.ShouldInline): same-package
+//      helpers, predicates, closures and methods are run inline; roles and
+//      boolean verdicts travel through their results ("rr:"/"rb:" keys), so a
+//      guard moved into a helper that returns the verdict is still seen;
+//  (iv) boolean locals assigned from a boolean expression fork on its value;
+//  (v) opacity marks: "opq:<role>" is set when a value of that role (or an
+//      expression the rule names) is handed to a module function that was not
+//      interpreted — a rule that misses a fact on such a path ends undecided.
 
 type c09Flow struct {
 	f    *kit.Func
@@ -88,7 +97,7 @@ type c09Flow struct {
 	info *types.Info
 	// roles names the roles of the results of an anchor call (nil = not an anchor).
 	roles func(call *ast.CallExpr) []string
-	// atom recognises rule atoms under the state at the start of the condition.
+	// atom recognises rule atoms under the state threaded through the condition.
 	atom func(e ast.Expr, s kit.S) (id string, neg, ok bool)
 	// onCall / onNode / onBranch / afterCond are optional client hooks.
 	onCall    func(call *ast.CallExpr, n ast.Node, s kit.S) []kit.S
@@ -96,7 +105,13 @@ type c09Flow struct {
 	onBranch  func(br kit.Branch, s kit.S) (t, f []kit.S, handled bool)
 	afterCond func(cond ast.Expr, t, f []kit.S) (t2, f2 []kit.S)
 	fold      func(e ast.Expr, s kit.S) (val, ok bool)
+	// inline selects the same-package callees that are evaluated inline.
+	inline func(cf *kit.Func, call *ast.CallExpr) bool
+	// opaque names extra roles whose facts an uninterpreted call may have decided
+	// (e.g. "auth" when the request is handed over).
+	opaque func(call *ast.CallExpr, s kit.S) []string
 
+	stack         []*kit.Func // mirror of the inlined frames
 	closureWrites map[*kit.Func][]types.Object
 }
 
@@ -104,8 +119,56 @@ func newC09Flow(f *kit.Func) *c09Flow {
 	return &c09Flow{f: f, st: &kit.Std{F: f}, info: f.Info(), closureWrites: map[*kit.Func][]types.Object{}}
 }
 
+const c09MaxInline = 4
+
+// sync drops mirror frames that have been left.
+func (fl *c09Flow) sync() {
+	cur := fl.st.Cur()
+	for len(fl.stack) > 0 && fl.stack[len(fl.stack)-1] != cur {
+		fl.stack = fl.stack[:len(fl.stack)-1]
+	}
+}
+
+// cur is the function whose body is being evaluated.
+func (fl *c09Flow) cur() *kit.Func { return fl.st.Cur() }
+
+// inlined reports whether we are inside an inlined callee.
+func (fl *c09Flow) inlined() bool { return fl.st.Cur() != fl.f }
+
+// willInline predicts whether kit.Std will evaluate the call inline.
+func (fl *c09Flow) willInline(call *ast.CallExpr, n ast.Node) (*kit.Func, bool) {
+	fl.sync()
+	cf := fl.cur().CalleeFunc(call)
+	if cf == nil || cf.Body == nil {
+		return cf, false
+	}
+	if fl.inline == nil || cf.Pkg != fl.f.Pkg || cf == fl.f {
+		return cf, false
+	}
+	if _, isGo := n.(*ast.GoStmt); isGo {
+		return cf, false
+	}
+	for _, x := range fl.stack {
+		if x == cf {
+			return cf, false
+		}
+	}
+	if len(fl.stack) >= c09MaxInline {
+		return cf, false
+	}
+	if ps := cf.Params(); len(call.Args) < len(ps) {
+		return cf, false
+	}
+	return cf, fl.inline(cf, call)
+}
+
+// obj resolves an expression to the object it denotes, mapping parameters of
+// inlined callees to the caller's argument.
+func (fl *c09Flow) obj(e ast.Expr) types.Object { return fl.st.ObjOf(e) }
+
 // roleOf returns the role tag of the variable denoted by e under s.
 func (fl *c09Flow) roleOf(e ast.Expr, s kit.S) string {
+	e = fl.st.Resolve(e)
 	if _, ok := ast.Unparen(e).(*ast.Ident); !ok {
 		return ""
 	}
@@ -113,7 +176,7 @@ func (fl *c09Flow) roleOf(e ast.Expr, s kit.S) string {
 	if o == nil {
 		return ""
 	}
-	return s.Get("bv:" + kit.VarID(o))
+	return s.Get("ro:" + kit.VarID(o))
 }
 
 // writes lists the captured variables a local closure assigns.
@@ -141,33 +204,276 @@ func (fl *c09Flow) writes(cf *kit.Func) []types.Object {
 	return out
 }
 
-func (fl *c09Flow) tag(s kit.S, lhs []ast.Expr, call *ast.CallExpr) kit.S {
-	if fl.roles == nil || call == nil {
+func (fl *c09Flow) setRole(s kit.S, l ast.Expr, role string) kit.S {
+	if _, isID := ast.Unparen(l).(*ast.Ident); !isID {
 		return s
 	}
-	rs := fl.roles(call)
-	if rs == nil {
-		return s
+	if o := kit.ObjOf(fl.info, l); o != nil && c09Simple(fl.cur(), o) {
+		s = s.Set("ro:"+kit.VarID(o), role)
 	}
-	for i, l := range lhs {
-		if i >= len(rs) || rs[i] == "" {
-			continue
-		}
-		// a fresh value: forget what was learnt about the previous one
-		for _, k := range s.Keys() {
-			if k == "a:"+rs[i] || strings.HasPrefix(k, "a:"+rs[i]+".") {
-				s = s.Del(k)
+	return s
+}
+
+// clearAssigned drops the role tags of the variables a statement (re)defines.
+// (The tags live under a prefix of their own: kit.Std also "forgets" the
+// operand of a range statement, which is a use, not a definition.)
+func (fl *c09Flow) clearAssigned(n ast.Node, s kit.S) kit.S {
+	drop := func(e ast.Expr) {
+		if _, isID := ast.Unparen(e).(*ast.Ident); isID {
+			if o := kit.ObjOf(fl.info, e); o != nil {
+				s = s.Del("ro:" + kit.VarID(o))
 			}
 		}
-		if o := kit.ObjOf(fl.info, l); o != nil && c09Simple(fl.f, o) {
-			s = s.Set("bv:"+kit.VarID(o), rs[i])
+	}
+	switch x := n.(type) {
+	case *ast.AssignStmt:
+		for _, l := range x.Lhs {
+			drop(l)
+		}
+	case *ast.IncDecStmt:
+		drop(x.X)
+	case *ast.ValueSpec:
+		for _, nm := range x.Names {
+			drop(nm)
+		}
+	case *ast.Ident:
+		if fl.info.Defs[x] != nil || fl.isRangeVar(x) {
+			drop(x)
 		}
 	}
 	return s
 }
 
+// isRangeVar reports whether the identifier node is the key or value of a
+// range statement (`for k, v = range …` with existing variables included).
+func (fl *c09Flow) isRangeVar(id *ast.Ident) bool {
+	if r, ok := fl.f.Prog.Parent(fl.cur().File, id).(*ast.RangeStmt); ok {
+		return r.Key == ast.Expr(id) || r.Value == ast.Expr(id)
+	}
+	return false
+}
+
+// tag gives the left-hand sides of `… = call(…)` the roles of the call's
+// results: those of an anchor call (fresh values: what was learnt about the
+// previous value of the role is forgotten), or those an inlined callee
+// returned.
+func (fl *c09Flow) tag(s kit.S, lhs []ast.Expr, call *ast.CallExpr) kit.S {
+	if call == nil {
+		return s
+	}
+	if fl.roles != nil {
+		if rs := fl.roles(call); rs != nil {
+			for i, l := range lhs {
+				if i >= len(rs) || rs[i] == "" {
+					continue
+				}
+				for _, k := range s.Keys() {
+					if k == "a:"+rs[i] || strings.HasPrefix(k, "a:"+rs[i]+".") || k == "opq:"+rs[i] {
+						s = s.Del(k)
+					}
+				}
+				s = fl.setRole(s, l, rs[i])
+			}
+			return s
+		}
+	}
+	if cf := fl.cur().CalleeFunc(call); cf != nil {
+		for i, l := range lhs {
+			if r := s.Get(fmt.Sprintf("rr:%d:%d", cf.Pos(), i)); r != "" {
+				s = fl.setRole(s, l, r)
+			}
+			if b := s.Get(fmt.Sprintf("rb:%d:%d", cf.Pos(), i)); b != "" {
+				if o := kit.ObjOf(fl.info, l); o != nil && c09IsBool(o.Type()) {
+					s = s.Set("v:"+kit.VarID(o), b)
+				}
+			}
+		}
+	}
+	return s
+}
+
+// resultExprs lists the result expressions of a return statement of cf (named
+// results for a bare return).
+func c09ResultExprs(cf *kit.Func, r *ast.ReturnStmt) []ast.Expr {
+	if len(r.Results) > 0 {
+		return r.Results
+	}
+	var out []ast.Expr
+	if cf.Type.Results != nil {
+		for _, fld := range cf.Type.Results.List {
+			for _, nm := range fld.Names {
+				out = append(out, nm)
+			}
+		}
+	}
+	return out
+}
+
+// onReturn records, at a return statement of an inlined callee, the roles and
+// boolean values of its results for the caller.
+func (fl *c09Flow) onReturn(r *ast.ReturnStmt, s kit.S) []kit.S {
+	states := fl.onReturn0(r, s)
+	// forget the roles of the callee's locals
+	cf := fl.cur()
+	lo, hi := cf.Node().Pos(), cf.Node().End()
+	for i, x := range states {
+		for _, k := range x.Keys() {
+			if !strings.HasPrefix(k, "ro:") {
+				continue
+			}
+			var pos int
+			if at := strings.LastIndex(k, "@"); at >= 0 {
+				fmt.Sscanf(k[at+1:], "%d", &pos)
+			}
+			if token.Pos(pos) >= lo && token.Pos(pos) <= hi {
+				x = x.Del(k)
+			}
+		}
+		states[i] = x
+	}
+	return states
+}
+
+func (fl *c09Flow) onReturn0(r *ast.ReturnStmt, s kit.S) []kit.S {
+	cf := fl.cur()
+	key := func(pre string, i int) string { return fmt.Sprintf("%s:%d:%d", pre, cf.Pos(), i) }
+	res := c09ResultExprs(cf, r)
+	// return g(…): hand the results of g through
+	if len(res) == 1 {
+		if call, ok := ast.Unparen(res[0]).(*ast.CallExpr); ok {
+			if tv, ok := fl.info.Types[call]; ok {
+				if tup, isTuple := tv.Type.(*types.Tuple); isTuple {
+					if fl.roles != nil {
+						if rs := fl.roles(call); rs != nil {
+							for i := 0; i < tup.Len() && i < len(rs); i++ {
+								if rs[i] != "" {
+									for _, k := range s.Keys() {
+										if k == "a:"+rs[i] || strings.HasPrefix(k, "a:"+rs[i]+".") {
+											s = s.Del(k)
+										}
+									}
+									s = s.Set(key("rr", i), rs[i])
+								}
+							}
+							return []kit.S{s}
+						}
+					}
+					if g := cf.CalleeFunc(call); g != nil {
+						for i := 0; i < tup.Len(); i++ {
+							if v := s.Get(fmt.Sprintf("rr:%d:%d", g.Pos(), i)); v != "" {
+								s = s.Set(key("rr", i), v)
+							}
+							if v := s.Get(fmt.Sprintf("rb:%d:%d", g.Pos(), i)); v != "" {
+								s = s.Set(key("rb", i), v)
+							}
+						}
+					}
+					return []kit.S{s}
+				}
+			}
+		}
+	}
+	states := []kit.S{s}
+	for i, e := range res {
+		var next []kit.S
+		for _, x := range states {
+			if role := fl.roleOf(e, x); role != "" {
+				x = x.Set(key("rr", i), role)
+			}
+			t := fl.info.TypeOf(e)
+			if t == nil || !c09IsBool(t) {
+				next = append(next, x)
+				continue
+			}
+			if v, ok := fl.st.FoldExpr(e, x); ok && v.Kind() == constant.Bool {
+				next = append(next, x.Set(key("rb", i), fmt.Sprint(constant.BoolVal(v))))
+				continue
+			}
+			if x.Has(key("rr", i)) {
+				next = append(next, x) // a role-tagged bool stays an atom for the caller
+				continue
+			}
+			ts, fs := fl.st.Eval.Eval(e, x)
+			for _, y := range ts {
+				next = append(next, y.Set(key("rb", i), "true"))
+			}
+			for _, y := range fs {
+				next = append(next, y.Set(key("rb", i), "false"))
+			}
+		}
+		states = next
+	}
+	return states
+}
+
+// forkBool handles `b := <boolean expression>`: the local takes both values,
+// each with the facts that make the expression true / false.
+func (fl *c09Flow) forkBool(s kit.S, l, r ast.Expr) []kit.S {
+	o := kit.ObjOf(fl.info, l)
+	if o == nil || !c09IsBool(o.Type()) {
+		return []kit.S{s}
+	}
+	if _, isCall := ast.Unparen(r).(*ast.CallExpr); isCall {
+		return []kit.S{s}
+	}
+	if _, ok := fl.st.FoldExpr(r, s); ok {
+		return []kit.S{s}
+	}
+	if fl.roleOf(r, s) != "" {
+		return []kit.S{s}
+	}
+	ts, fs := fl.st.Eval.Eval(r, s)
+	var out []kit.S
+	for _, y := range ts {
+		out = append(out, y.Set("v:"+kit.VarID(o), "true"))
+	}
+	for _, y := range fs {
+		out = append(out, y.Set("v:"+kit.VarID(o), "false"))
+	}
+	return out
+}
+
+func c09DropResults(s kit.S) kit.S {
+	for _, k := range s.Keys() {
+		if strings.HasPrefix(k, "rr:") || strings.HasPrefix(k, "rb:") {
+			s = s.Del(k)
+		}
+	}
+	return s
+}
+
+// isModuleCallee reports whether the callee of a call could run code of the
+// analysed module that the flow did not interpret.
+func (fl *c09Flow) isModuleCallee(call *ast.CallExpr) bool {
+	switch o := kit.Callee(fl.info, call).(type) {
+	case *types.Func:
+		return o.Pkg() != nil && strings.HasPrefix(o.Pkg().Path(), kit.ModPath)
+	case *types.Var:
+		_, isSig := o.Type().Underlying().(*types.Signature)
+		return isSig
+	case nil:
+		// call of a call result / conversion
+		if tv, ok := fl.info.Types[call.Fun]; ok && tv.IsType() {
+			return false
+		}
+		return true
+	}
+	return false
+}
+
 func (fl *c09Flow) client() kit.Client {
 	st := fl.st
+	st.MaxInline = c09MaxInline
+	if fl.inline != nil {
+		st.ShouldInline = func(cf *kit.Func, call *ast.CallExpr) bool {
+			fl.sync()
+			if !fl.inline(cf, call) {
+				return false
+			}
+			fl.stack = append(fl.stack, cf)
+			return true
+		}
+	}
 	atomAt := func(e ast.Expr, s kit.S) (string, bool, bool) {
 		// role-tagged error variable (bare test or inside a compound condition)
 		if x, trueIsErr, ok := kit.ErrCheck(fl.info, e); ok {
@@ -177,8 +483,16 @@ func (fl *c09Flow) client() kit.Client {
 		}
 		// role-tagged boolean variable
 		if r := fl.roleOf(e, s); r != "" {
-			if b, ok := fl.info.TypeOf(e).Underlying().(*types.Basic); ok && b.Info()&types.IsBoolean != 0 {
+			if t := fl.info.TypeOf(e); t != nil && c09IsBool(t) {
 				return r, false, true
+			}
+		}
+		// the boolean verdict of an inlined call whose result carries a role
+		if call, ok := ast.Unparen(e).(*ast.CallExpr); ok {
+			if cf := fl.cur().CalleeFunc(call); cf != nil {
+				if r := s.Get(fmt.Sprintf("rr:%d:0", cf.Pos())); r != "" {
+					return r, false, true
+				}
 			}
 		}
 		// role-tagged boolean compared with a constant: v == false, true != v
@@ -192,12 +506,6 @@ func (fl *c09Flow) client() kit.Client {
 				}
 			}
 		}
-		// len(<role var>) against the zero boundary
-		if x, nonEmptyWhenTrue, ok := c09LenAtom(fl.info, e); ok {
-			if r := fl.roleOf(x, s); r != "" {
-				return r + ".nonempty", !nonEmptyWhenTrue, true
-			}
-		}
 		if fl.atom != nil {
 			return fl.atom(e, s)
 		}
@@ -207,20 +515,71 @@ func (fl *c09Flow) client() kit.Client {
 		st.Fold = fl.fold
 	}
 	st.OnCall = func(call *ast.CallExpr, n ast.Node, s kit.S) []kit.S {
+		fl.sync()
+		cf, inl := fl.willInline(call, n)
 		// a local closure that assigns captured variables invalidates their tags
-		if cf := fl.f.CalleeFunc(call); cf != nil && cf.Lit != nil {
+		if cf != nil && cf.Lit != nil && !inl {
 			for _, o := range fl.writes(cf) {
-				s = s.Del("bv:" + kit.VarID(o))
+				s = s.Del("ro:" + kit.VarID(o))
 			}
 		}
+		states := []kit.S{s}
 		if fl.onCall != nil {
 			if r := fl.onCall(call, n, s); r != nil {
-				return r
+				states = r
 			}
 		}
-		return []kit.S{s}
+		// opacity: values handed to module code that is not interpreted
+		if !inl && fl.isModuleCallee(call) && (fl.roles == nil || fl.roles(call) == nil) {
+			var marks []string
+			args := append([]ast.Expr{}, call.Args...)
+			if sel, ok := ast.Unparen(call.Fun).(*ast.SelectorExpr); ok {
+				args = append(args, sel.X)
+			}
+			for _, arg := range args {
+				if u, ok := ast.Unparen(arg).(*ast.UnaryExpr); ok && u.Op == token.AND {
+					arg = u.X
+				}
+				if r := fl.roleOf(arg, s); r != "" {
+					marks = append(marks, r)
+				}
+			}
+			if fl.opaque != nil {
+				marks = append(marks, fl.opaque(call, s)...)
+			}
+			if len(marks) > 0 {
+				for i := range states {
+					for _, m := range marks {
+						states[i] = states[i].Set("opq:"+m, "1")
+					}
+				}
+			}
+		}
+		return states
 	}
 	st.OnNode = func(n ast.Node, s kit.S) []kit.S {
+		fl.sync()
+		if r, ok := n.(*ast.ReturnStmt); ok {
+			states := []kit.S{s}
+			if fl.inlined() {
+				states = fl.onReturn(r, s)
+			}
+			if fl.onNode != nil {
+				for i := range states {
+					states[i] = fl.onNode(n, states[i])
+				}
+			}
+			return states
+		}
+		// roles of the right-hand sides are read before the left-hand sides lose theirs
+		var rhsRoles []string
+		if as, ok := n.(*ast.AssignStmt); ok && len(as.Lhs) == len(as.Rhs) {
+			for _, r := range as.Rhs {
+				rhsRoles = append(rhsRoles, fl.roleOf(r, s))
+			}
+		}
+		s = fl.clearAssigned(n, s)
+		states := []kit.S{s}
 		switch x := n.(type) {
 		case *ast.AssignStmt:
 			if len(x.Rhs) == 1 {
@@ -228,14 +587,18 @@ func (fl *c09Flow) client() kit.Client {
 					s = fl.tag(s, x.Lhs, call)
 				}
 			}
-			// plain copies carry the role along: `valid, uid = ok, id`
+			states = []kit.S{s}
 			if len(x.Lhs) == len(x.Rhs) && (x.Tok == token.ASSIGN || x.Tok == token.DEFINE) {
 				for i, l := range x.Lhs {
-					if r := fl.roleOf(x.Rhs[i], s); r != "" {
-						if o := kit.ObjOf(fl.info, l); o != nil && c09Simple(fl.f, o) {
-							s = s.Set("bv:"+kit.VarID(o), r)
+					var next []kit.S
+					for _, y := range states {
+						// plain copies carry the role along: `valid, uid = ok, id`
+						if i < len(rhsRoles) && rhsRoles[i] != "" {
+							y = fl.setRole(y, l, rhsRoles[i])
 						}
+						next = append(next, fl.forkBool(y, l, x.Rhs[i])...)
 					}
+					states = next
 				}
 			}
 		case *ast.ValueSpec:
@@ -248,21 +611,51 @@ func (fl *c09Flow) client() kit.Client {
 					s = fl.tag(s, lhs, call)
 				}
 			}
+			states = []kit.S{s}
+			if len(x.Values) == len(x.Names) {
+				for i, nm := range x.Names {
+					var next []kit.S
+					for _, y := range states {
+						if r := fl.roleOf(x.Values[i], y); r != "" {
+							y = fl.setRole(y, nm, r)
+						}
+						next = append(next, fl.forkBool(y, nm, x.Values[i])...)
+					}
+					states = next
+				}
+			}
 		}
-		if fl.onNode != nil {
-			s = fl.onNode(n, s)
+		for i := range states {
+			states[i] = c09DropResults(states[i])
+			if fl.onNode != nil {
+				states[i] = fl.onNode(n, states[i])
+			}
 		}
-		return []kit.S{s}
+		return states
 	}
 	if fl.onBranch != nil {
-		st.OnBranch = fl.onBranch
+		st.OnBranch = func(br kit.Branch, s kit.S) (t, f []kit.S, handled bool) {
+			fl.sync()
+			return fl.onBranch(br, s)
+		}
 	}
 	cl := st.Client()
 	// Leaves are decided on the state threaded through the condition: rule
 	// atoms first (valued lazily, recorded under "a:<id>"), then kit.Std's own
-	// error-variable handling.
+	// handling (inlined call results, error variables).
 	stdLeaf := st.Eval.Leaf
 	st.Eval.Leaf = func(e ast.Expr, s kit.S) (t, f []kit.S, handled bool) {
+		// the boolean verdict of an inlined call
+		if call, ok := ast.Unparen(e).(*ast.CallExpr); ok {
+			if cf := fl.cur().CalleeFunc(call); cf != nil {
+				switch s.Get(fmt.Sprintf("rb:%d:0", cf.Pos())) {
+				case "true":
+					return []kit.S{s}, nil, true
+				case "false":
+					return nil, []kit.S{s}, true
+				}
+			}
+		}
 		if id, neg, ok := atomAt(e, s); ok {
 			k := "a:" + id
 			if s.Has(k) {
@@ -277,6 +670,71 @@ func (fl *c09Flow) client() kit.Client {
 			}
 			return []kit.S{sT}, []kit.S{sF}, true
 		}
+		// len(<role var>) OP k, <role var> == nil: interval reasoning about emptiness
+		if x, lo, hi, ok := c09LenTest(fl.info, e); ok {
+			if r := fl.roleOf(x, s); r != "" {
+				k := "a:" + r + ".nonempty"
+				edge := func(pieces [][2]int64) []kit.S {
+					// feasible under what is known, and what the edge teaches
+					known := s.Get(k)
+					canEmpty, canFull := false, false
+					for _, p := range pieces {
+						if p[0] > p[1] {
+							continue
+						}
+						if p[0] == 0 {
+							canEmpty = true
+						}
+						if p[1] >= 1 {
+							canFull = true
+						}
+					}
+					switch {
+					case !canEmpty && !canFull, known == "T" && !canFull, known == "F" && !canEmpty:
+						return nil
+					case known != "":
+						return []kit.S{s}
+					case canFull && !canEmpty:
+						return []kit.S{s.Set(k, "T")}
+					case canEmpty && !canFull:
+						return []kit.S{s.Set(k, "F")}
+					}
+					return []kit.S{s}
+				}
+				const inf = int64(1) << 40
+				tp := [][2]int64{{lo, hi}}
+				fp := [][2]int64{{0, lo - 1}, {hi + 1, inf}}
+				if lo < 0 { // the test was a `!=`: lo, hi hold the excluded point as (-k-1)
+					pt := -lo - 1
+					tp = [][2]int64{{0, pt - 1}, {pt + 1, inf}}
+					fp = [][2]int64{{pt, pt}}
+				}
+				return edge(tp), edge(fp), true
+			}
+		}
+		// any other test that mentions a role-tagged value may decide what the
+		// rule is after: remember that the path went through it
+		var touched []string
+		ast.Inspect(e, func(n ast.Node) bool {
+			if id, ok := n.(*ast.Ident); ok {
+				if r := fl.roleOf(id, s); r != "" {
+					touched = append(touched, r)
+				}
+			}
+			return true
+		})
+		if len(touched) > 0 {
+			s2 := s
+			for _, r := range touched {
+				s2 = s2.Set("opq:"+r, "1")
+			}
+			if stdLeaf != nil {
+				if t, f, ok := stdLeaf(e, s2); ok {
+					return t, f, true
+				}
+			}
+			return []kit.S{s2}, []kit.S{s2}, true
+		}
 		if stdLeaf != nil {
 			return stdLeaf(e, s)
 		}
@@ -284,7 +742,14 @@ func (fl *c09Flow) client() kit.Client {
 	}
 	orig := cl.Cond
 	cl.Cond = func(cond ast.Expr, s kit.S) (t, f []kit.S) {
+		fl.sync()
 		t, f = orig(cond, s)
+		for i := range t {
+			t[i] = c09DropResults(t[i])
+		}
+		for i := range f {
+			f[i] = c09DropResults(f[i])
+		}
 		if fl.afterCond != nil {
 			t, f = fl.afterCond(cond, t, f)
 		}
@@ -303,15 +768,31 @@ func (fl *c09Flow) run(c *kit.Ctx, init kit.S) *kit.Result {
 	if res.Overflow {
 		c.Fatalf("C09: state overflow in %s", fl.f.Name)
 	}
+	for cf := range fl.st.Inlined {
+		c.Analysed(cf)
+	}
 	return res
 }
 
-// c09LenAtom recognises `len(x) OP k` at the zero boundary and reports whether
-// the true edge means "x is non-empty".
-func c09LenAtom(info *types.Info, e ast.Expr) (x ast.Expr, nonEmptyWhenTrue, ok bool) {
+// c09SamePkg is the default inlining policy: every same-package callee.
+func c09SamePkg(except ...*kit.Func) func(cf *kit.Func, call *ast.CallExpr) bool {
+	return func(cf *kit.Func, call *ast.CallExpr) bool {
+		for _, x := range except {
+			if x == cf {
+				return false
+			}
+		}
+		return true
+	}
+}
+
+// c09LenTest recognises `len(x) OP k` (either operand order).  The true edge means len(x) ∈ [lo, hi]; for `!=`
+// the excluded point k is returned as lo = hi = -k-1.
+func c09LenTest(info *types.Info, e ast.Expr) (x ast.Expr, lo, hi int64, ok bool) {
+	const inf = int64(1) << 40
 	a, b, op, isCmp := kit.CmpAtom(e)
 	if !isCmp {
-		return nil, false, false
+		return nil, 0, 0, false
 	}
 	lenArg := func(y ast.Expr) ast.Expr {
 		call, ok := ast.Unparen(y).(*ast.CallExpr)
@@ -329,19 +810,33 @@ func c09LenAtom(info *types.Info, e ast.Expr) (x ast.Expr, nonEmptyWhenTrue, ok 
 	}
 	x = lenArg(a)
 	if x == nil {
-		return nil, false, false
+		return nil, 0, 0, false
 	}
 	k, isConst := kit.ConstInt(info, b)
-	if !isConst {
-		return nil, false, false
+	if !isConst || k < 0 && op != token.LSS && op != token.LEQ && op != token.GTR && op != token.GEQ {
+		return nil, 0, 0, false
 	}
-	switch {
-	case k == 0 && (op == token.GTR || op == token.NEQ), k == 1 && op == token.GEQ:
-		return x, true, true
-	case k == 0 && (op == token.LEQ || op == token.EQL), k == 1 && op == token.LSS:
-		return x, false, true
+	switch op {
+	case token.LSS:
+		return x, 0, k - 1, true
+	case token.LEQ:
+		return x, 0, k, true
+	case token.GTR:
+		if k < 0 {
+			k = -1
+		}
+		return x, k + 1, inf, true
+	case token.GEQ:
+		if k < 0 {
+			k = 0
+		}
+		return x, k, inf, true
+	case token.EQL:
+		return x, k, k, true
+	case token.NEQ:
+		return x, -k - 1, -k - 1, true
 	}
-	return nil, false, false
+	return nil, 0, 0, false
 }
 
 // c09Simple reports whether a local variable is only ever assigned by plain
@@ -384,9 +879,10 @@ type c09Anchors struct {
 
 // c09ListCall is a call of the user listing found in a gated handler.
 type c09ListCall struct {
-	f    *kit.Func
-	call *ast.CallExpr
-	bad  string
+	f     *kit.Func
+	call  *ast.CallExpr
+	bad   string
+	murky bool // the user id passed through code that was not interpreted
 }
 
 func c09IsJWT(obj types.Object, names ...string) bool {
@@ -470,9 +966,13 @@ func newC09Anchors(c *kit.Ctx) *c09Anchors {
 		}
 	}
 	// validators: (… *http.Request …) (bool, …) reaching a parse function
+	// (static calls only: a function that merely consults a validator through an
+	// interface, like a gate helper, is not itself a validator)
+	c09StaticOnly = true
 	reachParse := c09Reach(c, "api", func(f *kit.Func, call *ast.CallExpr) bool {
 		return c09IsJWT(kit.Callee(f.Info(), call), "Parse", "ParseWithClaims")
 	}, nil)
+	c09StaticOnly = false
 	for _, f := range c.P.Funcs("api") {
 		if f.Obj == nil || !reachParse[f] {
 			continue
@@ -552,33 +1052,63 @@ func newC09Anchors(c *kit.Ctx) *c09Anchors {
 	if len(a.credClients) == 0 {
 		c.Fatalf("no function of package client sends a request on subject %q", a.authSubject)
 	}
-	// credential check: compares the Email and Pass fields of data.User
+	// credential check: the function called from the auth handler (or one of its
+	// helpers) that reads — itself or through helpers — the e-mail / password
+	// fields of the user struct
 	emailF, passF := c09UserFields(c)
+	reads := map[*kit.Func]bool{}
 	for _, f := range c.P.Funcs("store") {
-		if f.Decl == nil || f.Body == nil {
+		if f.Body == nil {
 			continue
 		}
-		seenE, seenP := false, false
 		ast.Inspect(f.Body, func(n ast.Node) bool {
 			if sel, ok := n.(*ast.SelectorExpr); ok {
-				switch kit.ObjOf(f.Info(), sel) {
-				case types.Object(emailF):
-					seenE = true
-				case types.Object(passF):
-					seenP = true
+				if o := kit.ObjOf(f.Info(), sel); o == types.Object(emailF) || o == types.Object(passF) {
+					reads[f.Root()] = true
 				}
 			}
 			return true
 		})
-		if seenE || seenP {
-			if a.credFn != nil {
-				c.Fatalf("two functions of package store read the user's e-mail / password fields: %s and %s", a.credFn.Name, f.Name)
+	}
+	readsDeep := func(f *kit.Func) bool {
+		for _, g := range c09Closure(f) {
+			if reads[g.Root()] {
+				return true
 			}
-			a.credFn = f
+		}
+		return false
+	}
+	for _, g := range c09Closure(a.authHandler) {
+		if g.Body == nil {
+			continue
+		}
+		for _, call := range g.AllCalls(false) {
+			cf := g.CalleeFunc(call)
+			if cf == nil || cf.Decl == nil || cf.PkgRel() != "store" || !readsDeep(cf) {
+				continue
+			}
+			// the outermost such function on the way down from the handler
+			inner := false
+			for _, h := range c09Closure(a.authHandler) {
+				if h != cf && h != a.authHandler && readsDeep(h) && h.Decl != nil {
+					for _, c2 := range h.AllCalls(true) {
+						if h.CalleeFunc(c2) == cf {
+							inner = true
+						}
+					}
+				}
+			}
+			if inner {
+				continue
+			}
+			if a.credFn != nil && a.credFn != cf {
+				c.Fatalf("the auth handler calls two functions that read the user's e-mail / password fields: %s and %s", a.credFn.Name, cf.Name)
+			}
+			a.credFn = cf
 		}
 	}
 	if a.credFn == nil {
-		c.Fatalf("credential check (function of package store reading the user's e-mail or password field) not found")
+		c.Fatalf("credential check (function called from %s that reads the user's e-mail or password field) not found", a.authHandler.Name)
 	}
 
 	c09ListAnchors(c, a)
@@ -844,7 +1374,7 @@ func c09Callees(c *kit.Ctx, a *c09Anchors, f *kit.Func, call *ast.CallExpr) []*k
 		}
 		return nil
 	}
-	if fn, ok := kit.Callee(f.Info(), call).(*types.Func); ok {
+	if fn, ok := kit.Callee(f.Info(), call).(*types.Func); ok && !c09StaticOnly {
 		if a != nil && a.isDelegation(f, call) {
 			return nil
 		}
@@ -852,6 +1382,9 @@ func c09Callees(c *kit.Ctx, a *c09Anchors, f *kit.Func, call *ast.CallExpr) []*k
 	}
 	return nil
 }
+
+// c09StaticOnly restricts c09Callees to statically resolved callees.
+var c09StaticOnly bool
 
 // c09FreeLits lists the function literals lexically inside n (not nested in
 // one another) that are not bound to a local closure variable.
@@ -1037,14 +1570,17 @@ type c09SinkHit struct {
 // c09Gate is the result of the typestate run over one handler.
 type c09Gate struct {
 	f         *kit.Func
-	hasGate   bool // a header comparison or a validator call occurs
+	gateSeen  bool // a header comparison or a validator call was evaluated
 	sinks     []ast.Node
 	sinkName  map[ast.Node]string
+	sinkFunc  map[ast.Node]*kit.Func
+	opaqueAt  map[ast.Node]bool // helper that reaches the bus and was not interpreted
 	unauth    map[ast.Node]*c09SinkHit
 	reached   map[ast.Node]bool
 	res       *kit.Result
 	exits401  int
 	badExit   *kit.Exit
+	murkyExit bool // an unauthenticated exit without 401 on a path through uninterpreted code
 	tokenSeen map[*types.Var]bool
 }
 
@@ -1078,15 +1614,33 @@ func (a *c09Anchors) sinkAt(f *kit.Func, call *ast.CallExpr) string {
 	return ""
 }
 
+func (a *c09Anchors) isEntry(f *kit.Func) bool {
+	for _, e := range a.entries {
+		if e == f {
+			return true
+		}
+	}
+	return false
+}
+
 func (a *c09Anchors) runGate(f *kit.Func) *c09Gate {
 	c := a.c
 	info := f.Info()
-	g := &c09Gate{f: f, sinkName: map[ast.Node]string{}, unauth: map[ast.Node]*c09SinkHit{}, reached: map[ast.Node]bool{}, tokenSeen: map[*types.Var]bool{}}
+	g := &c09Gate{f: f, sinkName: map[ast.Node]string{}, sinkFunc: map[ast.Node]*kit.Func{}, opaqueAt: map[ast.Node]bool{},
+		unauth: map[ast.Node]*c09SinkHit{}, reached: map[ast.Node]bool{}, tokenSeen: map[*types.Var]bool{}}
 	resP, reqP := a.handlerParams(f)
 	var recv types.Object
 	if f.Decl != nil && f.Decl.Recv != nil && len(f.Decl.Recv.List) == 1 && len(f.Decl.Recv.List[0].Names) == 1 {
 		recv = info.Defs[f.Decl.Recv.List[0].Names[0]]
 	}
+	fl := newC09Flow(f)
+	// helpers, predicates and methods of the package are interpreted inline; other
+	// handler entries are checked on their own, validators are anchors
+	fl.inline = func(cf *kit.Func, call *ast.CallExpr) bool {
+		return !a.isEntry(cf) && !a.validFns[cf]
+	}
+	isReq := func(e ast.Expr) bool { return reqP != nil && fl.obj(e) == types.Object(reqP) }
+	isRes := func(e ast.Expr) bool { return resP != nil && fl.obj(e) == types.Object(resP) }
 	isAuthHeaderGet := func(e ast.Expr) bool {
 		call, ok := ast.Unparen(e).(*ast.CallExpr)
 		if !ok || len(call.Args) != 1 || !kit.CallIs(info, call, c09HTTP+".(Header).Get") {
@@ -1101,11 +1655,11 @@ func (a *c09Anchors) runGate(f *kit.Func) *c09Gate {
 			return false
 		}
 		hs, ok := ast.Unparen(sel.X).(*ast.SelectorExpr)
-		return ok && reqP != nil && kit.ObjOf(info, hs.X) == types.Object(reqP)
+		return ok && isReq(hs.X)
 	}
 	tokenFieldOf := func(e ast.Expr) *types.Var {
 		sel, ok := ast.Unparen(e).(*ast.SelectorExpr)
-		if !ok || recv == nil || kit.ObjOf(info, sel.X) != recv {
+		if !ok || recv == nil || fl.obj(sel.X) != recv {
 			return nil
 		}
 		v, ok := kit.ObjOf(info, sel).(*types.Var)
@@ -1119,29 +1673,16 @@ func (a *c09Anchors) runGate(f *kit.Func) *c09Gate {
 			return false
 		}
 		for _, arg := range call.Args {
-			if reqP != nil && kit.ObjOf(info, arg) == types.Object(reqP) {
+			if isReq(arg) {
 				return true
 			}
 		}
 		return false
 	}
-	// static pre-scan: does the handler have a gate at all, which calls are sinks
-	ast.Inspect(f.Body, func(n ast.Node) bool {
-		switch x := n.(type) {
-		case *ast.FuncLit:
-			return false
-		case *ast.CallExpr:
-			if isValidatorCall(x) || isAuthHeaderGet(x) {
-				g.hasGate = true
-			}
-		}
-		return true
-	})
-
-	fl := newC09Flow(f)
 	fl.roles = func(call *ast.CallExpr) []string {
 		switch {
 		case isValidatorCall(call):
+			g.gateSeen = true
 			return []string{"valid", "uid"}
 		case isAuthHeaderGet(call):
 			return []string{"hdr"}
@@ -1162,15 +1703,31 @@ func (a *c09Anchors) runGate(f *kit.Func) *c09Gate {
 		}
 		if tf := tokenFieldOf(y); tf != nil {
 			g.tokenSeen[tf] = true
+			g.gateSeen = true
 			return "tok", op == token.NEQ, true
 		}
 		return "", false, false
+	}
+	// code that is not interpreted and receives the request, the handler or the
+	// response writer may have decided (or answered) the authorisation itself
+	fl.opaque = func(call *ast.CallExpr, s kit.S) []string {
+		args := append([]ast.Expr{}, call.Args...)
+		if sel, ok := ast.Unparen(call.Fun).(*ast.SelectorExpr); ok {
+			args = append(args, sel.X)
+		}
+		for _, arg := range args {
+			if isReq(arg) || (recv != nil && fl.obj(arg) == recv) {
+				return []string{"auth"}
+			}
+		}
+		return nil
 	}
 	note := func(n ast.Node, what string, s kit.S) {
 		if _, ok := g.sinkName[n]; !ok {
 			g.sinkName[n] = what
 			g.sinks = append(g.sinks, n)
 		}
+		g.sinkFunc[n] = fl.cur()
 		g.reached[n] = true
 		if !c09Authed(s) && g.unauth[n] == nil {
 			g.unauth[n] = &c09SinkHit{n, what, s}
@@ -1178,20 +1735,31 @@ func (a *c09Anchors) runGate(f *kit.Func) *c09Gate {
 	}
 	listSeen := map[*ast.CallExpr]*c09ListCall{}
 	fl.onCall = func(call *ast.CallExpr, n ast.Node, s kit.S) []kit.S {
-		if w := a.sinkAt(f, call); w != "" {
+		cur := fl.cur()
+		if w := a.directSink(cur, call); w != "" {
 			note(call, w, s)
+		} else if _, inl := fl.willInline(call, n); !inl {
+			// a helper that reaches the bus and is not interpreted here
+			for _, cf := range c09Callees(c, a, cur, call) {
+				if a.bus[cf] {
+					note(call, "helper "+cf.Name, s)
+					g.opaqueAt[call] = true
+					break
+				}
+			}
 		}
 		// whose nodes are listed: the user id the validator returned
-		if a.listFn != nil && f.CalleeFunc(call) == a.listFn && len(call.Args) == 2 {
+		if a.listFn != nil && cur.CalleeFunc(call) == a.listFn && len(call.Args) == 2 {
 			lc := listSeen[call]
 			if lc == nil {
-				lc = &c09ListCall{f: f, call: call}
+				lc = &c09ListCall{f: cur, call: call}
 				listSeen[call] = lc
 				a.listCalls = append(a.listCalls, lc)
 			}
 			if fl.roleOf(call.Args[1], s) != "uid" && lc.bad == "" {
 				lc.bad = fmt.Sprintf("%s at %s lists the nodes of `%s`, which on some path is not the user id returned by the JWT validator: a valid user can read another user's subtrees",
-					a.listFn.Name, f.At(call), f.Str(call.Args[1]))
+					a.listFn.Name, cur.At(call), cur.Str(call.Args[1]))
+				lc.murky = s.Get("opq:uid") == "1" || s.Get("opq:auth") == "1"
 			}
 		}
 		// status 401 written to this request's ResponseWriter
@@ -1201,38 +1769,51 @@ func (a *c09Anchors) runGate(f *kit.Func) *c09Gate {
 				if v, ok := kit.ConstInt(info, arg); ok && v == 401 {
 					has401 = true
 				}
-				if kit.ObjOf(info, arg) == types.Object(resP) {
+				if isRes(arg) {
 					hasRes = true
 				}
 			}
-			if sel, ok := ast.Unparen(call.Fun).(*ast.SelectorExpr); ok && kit.ObjOf(info, sel.X) == types.Object(resP) {
+			if sel, ok := ast.Unparen(call.Fun).(*ast.SelectorExpr); ok && isRes(sel.X) {
 				hasRes = true
 			}
 			if has401 && hasRes {
 				return []kit.S{s.Set("sent401", "1")}
 			}
+			// a status that is not a known constant may be 401
+			if hasRes {
+				for _, arg := range call.Args {
+					if t := info.TypeOf(arg); t != nil {
+						if b, ok := t.Underlying().(*types.Basic); ok && b.Info()&types.IsInteger != 0 {
+							if _, isConst := kit.ConstInt(info, arg); !isConst {
+								if v, ok := fl.st.FoldExpr(arg, s); ok && v.Kind() == constant.Int {
+									if iv, _ := constant.Int64Val(v); iv == 401 {
+										return []kit.S{s.Set("sent401", "1")}
+									}
+								} else {
+									return []kit.S{s.Set("sentUnknown", "1")}
+								}
+							}
+						}
+					}
+				}
+			}
 		}
 		return nil
 	}
 	fl.onNode = func(n ast.Node, s kit.S) kit.S {
-		for _, lf := range c09FreeLits(f, n) {
+		for _, lf := range c09FreeLits(fl.cur(), n) {
 			if a.bus[lf] {
 				note(lf.Lit, "function literal reaching the bus", s)
 			}
 		}
 		return s
 	}
-	// sinks that the run never reaches still count as instances
+	// direct sinks of the handler body that the run never reaches still count as instances
 	for _, call := range f.AllCalls(false) {
-		if w := a.sinkAt(f, call); w != "" {
+		if w := a.directSink(f, call); w != "" {
 			g.sinkName[call] = w
+			g.sinkFunc[call] = f
 			g.sinks = append(g.sinks, call)
-		}
-	}
-	for _, lf := range c09FreeLits(f, f.Body) {
-		if a.bus[lf] {
-			g.sinkName[lf.Lit] = "function literal reaching the bus"
-			g.sinks = append(g.sinks, lf.Lit)
 		}
 	}
 	g.res = fl.run(c, kit.NewS())
@@ -1241,9 +1822,12 @@ func (a *c09Anchors) runGate(f *kit.Func) *c09Gate {
 		if c09Authed(e.State) {
 			continue
 		}
-		if e.State.Get("sent401") == "1" {
+		switch {
+		case e.State.Get("sent401") == "1":
 			g.exits401++
-		} else if g.badExit == nil {
+		case e.State.Get("opq:auth") == "1", e.State.Get("sentUnknown") == "1":
+			g.murkyExit = true
+		case g.badExit == nil:
 			g.badExit = &g.res.Exits[i]
 		}
 	}
@@ -1308,23 +1892,23 @@ func c09Handlers(c *kit.Ctx, a *c09Anchors) {
 			continue
 		}
 		g := a.runGate(f)
-		if !g.hasGate && gateHelpers[f] {
-			// the gate seems to live in a helper: not an accepted idiom, but not a proven hole either
-			o2.Undecided("handler %s reaches the bus and its authentication test is not in the handler body but in a function it calls: gate helpers are not analysed", f.Name)
+		if !g.gateSeen && gateHelpers[f] {
+			// an authentication test exists below the handler but the interpreter never evaluated it
+			o2.Undecided("handler %s reaches the bus and an authentication test is reachable from it, but it was not evaluated on any interpreted path (too deep, recursive or behind an interface)", f.Name)
 			continue
 		}
-		if !g.hasGate {
+		if !g.gateSeen {
 			var names []string
 			for _, n := range g.sinks {
 				if !strings.HasPrefix(g.sinkName[n], "dynamic call") {
-					names = append(names, fmt.Sprintf("%s at %s", g.sinkName[n], f.At(n)))
+					names = append(names, fmt.Sprintf("%s at %s", g.sinkName[n], g.sinkFunc[n].At(n)))
 				}
 			}
 			if len(names) == 0 {
 				o2.Undecided("handler %s calls func-valued variables whose callees are unknown and has no authentication gate", f.Name)
 				continue
 			}
-			o2.Violation("handler %s reaches the bus (%s) and has no authentication gate (neither a comparison of the Authorization header with the configured token nor a JWT validator call)",
+			o2.Violation("handler %s reaches the bus (%s) and neither it nor any function it calls compares the Authorization header with the configured token or calls a JWT validator",
 				f.Name, strings.Join(names, "; "))
 			continue
 		}
@@ -1337,14 +1921,15 @@ func c09Handlers(c *kit.Ctx, a *c09Anchors) {
 			a.tokenField = tf
 		}
 		for _, n := range g.sinks {
-			o := r1.Ob(f, n, c09SinkKey(g, n), "reached only on the equal edge of `Authorization header == configured token` or the true edge of the JWT validator's result")
+			sf := g.sinkFunc[n]
+			o := r1.Ob(sf, n, c09SinkKey(g, n), "reached only on the equal edge of `Authorization header == configured token` or the true edge of the JWT validator's result")
+			h := g.unauth[n]
 			switch {
-			case g.unauth[n] != nil && strings.HasPrefix(g.sinkName[n], "dynamic call"):
-				o.Undecided("%s at %s is reachable unauthenticated and its callee is unknown", g.sinkName[n], f.At(n))
-			case g.unauth[n] != nil:
-				h := g.unauth[n]
+			case h != nil && (strings.HasPrefix(g.sinkName[n], "dynamic call") || g.opaqueAt[n] || h.s.Get("opq:auth") == "1"):
+				o.Undecided("%s at %s is reached without an authentication fact on a path through code that was not interpreted (callee unknown, helper too deep/recursive, or the request was handed to another package)", g.sinkName[n], sf.At(n))
+			case h != nil:
 				o.Violation("%s at %s is reachable unauthenticated: header comparison %s, validator result %s on that path",
-					h.what, f.At(n), c09Fact(h.s, "a:tok", "equal", "not equal", "not evaluated"), c09Fact(h.s, "a:valid", "true", "false", "not obtained/tested"))
+					h.what, sf.At(n), c09Fact(h.s, "a:tok", "equal", "not equal", "not evaluated"), c09Fact(h.s, "a:valid", "true", "false", "not obtained/tested"))
 			case !g.reached[n]:
 				o.OK("site unreachable")
 			default:
@@ -1355,8 +1940,10 @@ func c09Handlers(c *kit.Ctx, a *c09Anchors) {
 		switch {
 		case g.badExit != nil:
 			o.Violation("an exit is reachable unauthenticated without status 401 having been sent").WithPath(g.res.PathTo(*g.badExit))
+		case g.murkyExit:
+			o.Undecided("an unauthenticated exit without a recognised status 401 lies on a path through code that was not interpreted or that writes a status that is not a known constant")
 		case g.exits401 == 0:
-			o.Violation("the gate has no refusing exit: no unauthenticated path ends after sending status 401")
+			o.Undecided("no interpreted unauthenticated path ends after sending status 401")
 		default:
 			o.OK("%d unauthenticated exit state(s), all after status 401", g.exits401)
 		}
